@@ -289,6 +289,7 @@ func runRun(t *testing.T, s *Scenario) (evs []wire.Event) {
 		body := ""
 		ctype := ""
 		panicked := ""
+		var mixBodies []string // the answers to the other requests served at the same time (HTTP): their identifiers are part of the trace
 		func() {
 			defer func() {
 				if r := recover(); r != nil {
@@ -298,6 +299,7 @@ func runRun(t *testing.T, s *Scenario) (evs []wire.Event) {
 			if rp.Via == "http" {
 				// other requests served by the same server at the same time (their answers are not part of the trace)
 				var owg sync.WaitGroup
+				var mixMu sync.Mutex
 				for _, q := range s.Mix {
 					q := q
 					owg.Add(1)
@@ -306,7 +308,10 @@ func runRun(t *testing.T, s *Scenario) (evs []wire.Event) {
 						if q.StartDelayUs > 0 {
 							time.Sleep(time.Duration(q.StartDelayUs) * time.Microsecond)
 						}
-						httpRequest(ctx, srv, q)
+						_, _, b := httpRequest(ctx, srv, q)
+						mixMu.Lock()
+						mixBodies = append(mixBodies, b)
+						mixMu.Unlock()
 					}()
 				}
 				if rp.StartDelayUs > 0 {
@@ -406,7 +411,23 @@ func runRun(t *testing.T, s *Scenario) (evs []wire.Event) {
 			dc[k] = v
 		}
 		dnsMu.Unlock()
-		ret = append(ret, "runs", runs, "rtts_us", rtts, "pub", pub, "doc", doc, "pub_calls", fetcher.calls, "dns_calls", dc,
+		allIDs := []string{}
+		idsOf := func(r *result.Results) {
+			allIDs = append(allIDs, r.TestRunID)
+			for _, x := range r.Traceroute.Runs {
+				allIDs = append(allIDs, x.RunID)
+			}
+		}
+		if res != nil && rp.Via == "http" {
+			idsOf(res)
+			for _, b := range mixBodies {
+				o := &result.Results{}
+				if json.Unmarshal([]byte(b), o) == nil && o.TestRunID != "" {
+					idsOf(o)
+				}
+			}
+		}
+		ret = append(ret, "all_ids", allIDs, "runs", runs, "rtts_us", rtts, "pub", pub, "doc", doc, "pub_calls", fetcher.calls, "dns_calls", dc,
 			"hops", []hopOut{}, "src", "", "sport", 0, "dst", "", "dport", 0,
 			"goroutines", g, "gsample", sample, "opened", opened, "closed_once", once, "bad_handles", bad, "accepts", w.Accepts,
 			"flood_delivered", w.FloodDelivered, "body", truncate(body, 300), "ctype", ctype)
